@@ -19,6 +19,7 @@ import (
 	"github.com/tokenized/spynode/internal/platform/config"
 	"github.com/tokenized/spynode/internal/state"
 	internalStorage "github.com/tokenized/spynode/internal/storage"
+	"github.com/tokenized/spynode/internal/verifhook"
 	"github.com/tokenized/spynode/pkg/client"
 
 	"github.com/pkg/errors"
@@ -420,6 +421,7 @@ func (node *Node) Run(ctx context.Context) error {
 		}
 
 		logger.Info(ctx, "Stopping")
+		verifhook.At(ctx, "node.stop.begin")
 
 		node.txTracker.Stop() // This will reduce network messages
 
@@ -447,6 +449,7 @@ func (node *Node) Run(ctx context.Context) error {
 			waitCount++
 		}
 		logger.Info(ctx, "Incoming threads stopped")
+		verifhook.At(ctx, "node.stop.incomingStopped")
 
 		// Close the channels to stop the processing threads.
 		node.outgoing.Close()
@@ -467,6 +470,7 @@ func (node *Node) Run(ctx context.Context) error {
 			waitCount++
 		}
 		logger.Info(ctx, "Processing threads stopped")
+		verifhook.At(ctx, "node.stop.processingStopped")
 
 		// Save block repository
 		logger.Verbose(ctx, "Saving")
@@ -976,6 +980,7 @@ func (node *Node) checkTxDelays(ctx context.Context) {
 	logger.Info(ctx, "Safe tx delay : %d ms", node.config.SafeTxDelay)
 	for !node.isStopping() {
 		time.Sleep(100 * time.Millisecond)
+		verifhook.At(ctx, "node.safe.iteration")
 
 		if !node.state.IsReady() {
 			continue
@@ -1000,6 +1005,7 @@ func (node *Node) checkTxDelays(ctx context.Context) {
 			if txState.State.UnSafe || txState.State.Cancelled {
 				continue
 			}
+			verifhook.At(ctx, "node.safe.fetched")
 
 			txState.State.Safe = true
 
